@@ -162,7 +162,7 @@ func (g *Gen) tag() string {
 	return fmt.Sprintf("t%d", g.tagN)
 }
 
-var wordPool = []string{"a", "b", "abc", "x y", "hello", "Fo", "z9", "", "lang", "q", "ab", "k-1", "m.n", "u_v"}
+var wordPool = []string{"a", "b", "abc", "x y", "hello", "Fo", "z9", "", "lang", "q", "ab", "k-1", "m.n", "u_v", "l1\nl2", "q\"t", "b\\s", "t\tx", "100%", "{b}"}
 
 func (g *Gen) strLitVal() string { return core.Pick(g.R, wordPool) }
 
@@ -1382,6 +1382,14 @@ func (g *Gen) matchS(t *Type, sc *scope, d int, fx bool) Expr {
 		}
 		seen[lit] = true
 		m.Arms = append(m.Arms, SArm{lit, g.block(t, sc, d-1, fx, false)})
+	}
+	if len(m.Arms) > 0 && g.R.Chance(0.5) {
+		// the target is the text of one of the literal rules (so that the literal arms are reached)
+		m.Target = &StrLit{m.Arms[g.R.Intn(len(m.Arms))].Lit}
+		if fx && g.R.Bool() {
+			m.Target = call("evS", &StrLit{g.tag()}, m.Target)
+		}
+		g.feat("string-match-target-equals-a-rule")
 	}
 	if g.R.Chance(0.5) {
 		dsc := sc.child(true)
